@@ -2121,7 +2121,7 @@ static int64_t bufr_rd_section4(bufr_read_callback readcb, void *cd,
       }
    else
       {
-      len = bufr->s4.len - bufr->s4.header_len;
+      len = (int64_t)bufr->s4.len - bufr->s4.header_len; /* s4.len is unsigned: a length below 4 must not wrap */
       }
 
    if (len < 0) return -1; /* the section lengths do not fit in the total length of Section 0 */
